@@ -15,7 +15,8 @@ class C17(scen.WorldProp):
                 "Wheatley.C17.size_change_recomputes",
                 "Wheatley.C17.size_message",
                 "Wheatley.C17.default_opening",
-                "Wheatley.C17.rhythm_follows_tower_size"]
+                "Wheatley.C17.rhythm_follows_tower_size",
+                "Wheatley.C17.refused_look_to_rings_nothing"]
     level_text = ("theorems: Look To starts ringing iff the opening row has exactly the tower's length and the "
                   "generator that will be rung has a stage in 1..N; a generated row shorter than the opening row is "
                   "padded with the opening row's tail; a size change recomputes opening row and rounds from the new "
